@@ -77,6 +77,12 @@ def stimuli(tier, seed, ctx):
             perms = rnd.sample(perms, 4)
         for p in perms:
             out.append({'cfg': cfg, 'order': list(p), 'cbfail': cbfail, 'cleanup': cleanup,
+                        # a long chain of combinational blocks behind the one that is observed: the
+                        # first evaluation is still one uninterrupted step
+                        'chain': 1200 if rnd.random() < 0.01 else 0,
+                        # an 'expiration' setting of the persistent blocks; the storage carries no
+                        # stop time stamp (an earlier run did not stop regularly): nothing expires
+                        'expiration': rnd.random() < 0.3,
                         'first': first, 'nostorage': nostorage,
                         # a second wait_init() while a slow clean-up of the stopped / failed
                         # simulation is still in progress
@@ -208,6 +214,8 @@ def execute(stim):
                 if c.get('lib'):
                     blocks[b] = VP(f'b{b}', conf=c, idx=b, func=poll_func(c, b), interval=TICK, **kw)
                     continue
+                if stim.get('expiration') and c['restore'] != 'none':
+                    kw['expiration'] = 100 * TICK
                 blocks[b] = cls(f'b{b}', conf=c, idx=b, persistent=c['restore'] != 'none', **kw)
                 if c['restore'] != 'none':
                     storage[blocks[b].key] = 'S'
@@ -232,6 +240,8 @@ def execute(stim):
                     raise RuntimeError('scripted calc_output failure')
                 return 1
             cb = edzed.FuncBlock('cb', func=fn).connect('b1')
+            for k in range(stim.get('chain') or 0):
+                cb = edzed.FuncBlock(f'cb{k}', func=lambda x: x).connect(cb)
             if stim['cleanup']:
                 edzed.Repeat('rep', dest='b1', etype='nosuch', interval=1)     # a block with async clean-up
             if stim.get('late'):
